@@ -1,4 +1,1142 @@
-//! C20 monitor (not written yet).
-use crate::ctx::Ctx;
+//! C20 — randomly generated arguments always inhabit the requested types.
+//!
+//! `candid_parser::random::any(seed, configs, env, types, scope)` must return `Err` or values that
+//! (1) are as many as the types, (2) have those types in the reference typing judgement R7 applied
+//! to their abstract meaning, (3) come back unchanged (abstractly) from `annotate_types(false, …)`,
+//! (4) encode at the types, and the reference decoder R1 reads the same abstract values back.
+//! It must never panic or overflow the stack (2 MiB). Result depth/size are measured against the
+//! configured budget (maxima in the evidence; only order-of-magnitude excesses are flagged).
+//!
+//! Calls run on a 2 MiB thread inside the worker. Cases whose types are recursive — where an
+//! unbounded recursion is conceivable — run in a forked child instead, so that a stack overflow is
+//! reported as a finding with its witness and does not take the worker (and its evidence) down.
+use super::common::*;
+use crate::conv::*;
+use crate::ctx::{catch, hex, on_thread, Ctx};
+use crate::gen::types::*;
+use crate::gen::values::min_costs;
+use crate::model::misc::has_type;
+use crate::model::wire::{decode, DecErr};
+use crate::model::*;
+use crate::rng::{hash_str, Rng};
+use candid_parser::configs::{Configs, Scope, ScopePos};
+use serde_json::{json, Value};
 
-pub fn run(_ctx: &mut Ctx) {}
+#[derive(Clone, Debug)]
+struct Case {
+    env: REnv,
+    types: Vec<RType>,
+    names: Names,
+    seed: Vec<u8>,
+    seed_kind: &'static str,
+    toml: String,
+    /// (method, Some(true)=arg / Some(false)=ret / None)
+    scope: Option<(String, Option<bool>)>,
+    /// top-level budget when nothing more specific can override it: (depth, size, width)
+    budget: Option<(i64, i64, i64)>,
+    /// the config contains a `value` list that is well-typed for argument k
+    value_for_arg: Option<usize>,
+    config_class: String,
+}
+
+// ------------------------------------------------------------------------------------------
+// static facts about the requested types (from the model; no candid involved)
+
+struct Facts {
+    recursive: bool,
+    vec_recursion: bool,
+    uninhabited: bool,
+    has_empty: bool,
+    has_empty_variant: bool,
+    /// generous bound on the nesting needed to finish every definition once
+    static_depth: usize,
+}
+
+fn reachable(env: &REnv, ts: &[RType]) -> Vec<bool> {
+    let mut seen = vec![false; env.0.len()];
+    fn go(env: &REnv, t: &RType, seen: &mut Vec<bool>) {
+        match t {
+            RType::Ref(i) => {
+                if *i < seen.len() && !seen[*i] {
+                    seen[*i] = true;
+                    go(env, &env.0[*i], seen)
+                }
+            }
+            // values of reference types are just principals: their argument types are never generated
+            RType::Opt(x) | RType::Vec(x) => go(env, x, seen),
+            RType::Record(fs) | RType::Variant(fs) => fs.iter().for_each(|f| go(env, &f.1, seen)),
+            _ => {}
+        }
+    }
+    for t in ts {
+        go(env, t, &mut seen);
+    }
+    seen
+}
+
+fn facts(env: &REnv, ts: &[RType]) -> Facts {
+    let reach = reachable(env, ts);
+    let n = env.0.len();
+    // edges between definitions through value positions; `through_vec` marks edges below a vec
+    fn refs(t: &RType, under_vec: bool, out: &mut Vec<(usize, bool)>) {
+        match t {
+            RType::Ref(i) => out.push((*i, under_vec)),
+            RType::Opt(x) => refs(x, under_vec, out),
+            RType::Vec(x) => refs(x, true, out),
+            RType::Record(fs) | RType::Variant(fs) => fs.iter().for_each(|f| refs(&f.1, under_vec, out)),
+            _ => {}
+        }
+    }
+    let mut edge = vec![vec![(false, false); n]; n]; // (reachable, some path goes under a vec)
+    for i in 0..n {
+        let mut r = Vec::new();
+        refs(&env.0[i], false, &mut r);
+        for (j, v) in r {
+            if j < n {
+                edge[i][j].0 = true;
+                edge[i][j].1 |= v;
+            }
+        }
+    }
+    for k in 0..n {
+        for i in 0..n {
+            for j in 0..n {
+                if edge[i][k].0 && edge[k][j].0 {
+                    let v = edge[i][k].1 || edge[k][j].1 || edge[i][j].1;
+                    edge[i][j] = (true, v);
+                }
+            }
+        }
+    }
+    let recursive = (0..n).any(|i| reach[i] && edge[i][i].0);
+    let vec_recursion = (0..n).any(|i| reach[i] && edge[i][i].0 && edge[i][i].1);
+    let costs = min_costs(env);
+    let vg_inhabited = |t: &RType| crate::gen::values::cost(t, &costs) < crate::gen::values::INF;
+    let uninhabited = ts.iter().any(|t| !vg_inhabited(t));
+    fn scan(t: &RType, f: &mut dyn FnMut(&RType)) {
+        f(t);
+        match t {
+            RType::Opt(x) | RType::Vec(x) => scan(x, f),
+            RType::Record(fs) | RType::Variant(fs) => fs.iter().for_each(|x| scan(&x.1, f)),
+            _ => {}
+        }
+    }
+    let mut has_empty = false;
+    let mut has_empty_variant = false;
+    let mut look = |t: &RType| match t {
+        RType::Empty => has_empty = true,
+        RType::Variant(fs) if fs.is_empty() => has_empty_variant = true,
+        _ => {}
+    };
+    for t in ts {
+        scan(t, &mut look);
+    }
+    for i in 0..n {
+        if reach[i] {
+            scan(&env.0[i], &mut look);
+        }
+    }
+    fn depth(t: &RType) -> usize {
+        match t {
+            RType::Opt(x) | RType::Vec(x) => 1 + depth(x),
+            RType::Record(fs) | RType::Variant(fs) => 1 + fs.iter().map(|f| depth(&f.1)).max().unwrap_or(0),
+            _ => 1,
+        }
+    }
+    let static_depth = ts.iter().map(depth).max().unwrap_or(0)
+        + (0..n).filter(|i| reach[*i]).map(|i| depth(&env.0[i])).sum::<usize>();
+    Facts {
+        recursive,
+        vec_recursion,
+        uninhabited,
+        has_empty,
+        has_empty_variant,
+        static_depth,
+    }
+}
+
+fn type_class(f: &Facts) -> &'static str {
+    if f.has_empty_variant {
+        "variant-empty"
+    } else if f.has_empty {
+        "empty"
+    } else if f.uninhabited && f.recursive {
+        "uninhabited-recursive"
+    } else if f.vec_recursion {
+        "vec-recursion"
+    } else if f.recursive {
+        "recursive"
+    } else {
+        "finite"
+    }
+}
+
+// ------------------------------------------------------------------------------------------
+// generation of cases
+
+fn pp_num(n: u32) -> String {
+    // the spelling candid's `Label::Id` has in config paths: groups of three separated by `_`
+    let s = n.to_string();
+    let mut groups: Vec<String> = Vec::new();
+    let b = s.as_bytes();
+    let mut end = b.len();
+    while end > 0 {
+        let start = end.saturating_sub(3);
+        groups.push(s[start..end].to_string());
+        end = start;
+    }
+    groups.reverse();
+    groups.join("_")
+}
+
+fn toml_key(s: &str) -> String {
+    // basic string: escape what TOML requires
+    let mut o = String::from("\"");
+    for c in s.chars() {
+        match c {
+            '"' => o.push_str("\\\""),
+            '\\' => o.push_str("\\\\"),
+            c if (c as u32) < 0x20 || c as u32 == 0x7f => o.push_str(&format!("\\u{:04X}", c as u32)),
+            c => o.push(c),
+        }
+    }
+    o.push('"');
+    o
+}
+
+/// Text of a Candid value of type `t` (own printer; numeric labels), for `value` lists.
+fn value_text(env: &REnv, t: &RType, rng: &mut Rng, depth: usize) -> Option<String> {
+    let t = env.unfold(t)?;
+    Some(match t {
+        RType::Null => "null".into(),
+        RType::Bool => if rng.bool() { "true" } else { "false" }.into(),
+        RType::Nat => rng.pick(&["0", "42", "1_000", "340282366920938463463374607431768211456"]).to_string(),
+        RType::Int => rng.pick(&["0", "-7", "+5", "42"]).to_string(),
+        RType::Nat8 => rng.pick(&["0", "255", "7"]).to_string(),
+        RType::Nat16 => "65535".into(),
+        RType::Nat32 => "4294967295".into(),
+        RType::Nat64 => "18446744073709551615".into(),
+        RType::Int8 => rng.pick(&["-128", "127"]).to_string(),
+        RType::Int16 => "-32768".into(),
+        RType::Int32 => "-1".into(),
+        RType::Int64 => "-9223372036854775808".into(),
+        RType::Float32 | RType::Float64 => rng.pick(&["1.5", "-0.25", "1e3", "0.0"]).to_string(),
+        RType::Text => rng.pick(&["\"\"", "\"hello\"", "\"a\\\"b\"", "\"\\u{1F600}\""]).to_string(),
+        RType::Reserved => rng.pick(&["null", "42", "\"anything\""]).to_string(),
+        RType::Empty | RType::Future => return None,
+        RType::Principal => "principal \"aaaaa-aa\"".into(),
+        RType::Service(_) => "service \"2vxsx-fae\"".into(),
+        RType::Func { .. } => "func \"aaaaa-aa\".method".into(),
+        RType::Opt(x) => {
+            if depth == 0 || rng.bool() {
+                "null".into()
+            } else {
+                match env.unfold(x) {
+                    // `opt <number>` needs an annotation-free spelling that the parser accepts
+                    Some(_) => format!("opt {}", value_text(env, x, rng, depth - 1)?),
+                    None => return None,
+                }
+            }
+        }
+        RType::Vec(x) => {
+            if depth == 0 || rng.bool() {
+                "vec {}".into()
+            } else {
+                let a = value_text(env, x, rng, depth - 1)?;
+                let b = value_text(env, x, rng, depth - 1)?;
+                format!("vec {{ {a}; {b} }}")
+            }
+        }
+        RType::Record(fs) => {
+            if depth == 0 && !fs.is_empty() {
+                return None;
+            }
+            // the value grammar of the pinned tree overflows on the id 2^32-1 (a C13 finding, not this property's)
+            if fs.iter().any(|f| f.0 == u32::MAX) {
+                return None;
+            }
+            let mut parts = Vec::new();
+            for (id, ft) in fs {
+                parts.push(format!("{id} = {}", value_text(env, ft, rng, depth.saturating_sub(1))?));
+            }
+            format!("record {{ {} }}", parts.join("; "))
+        }
+        RType::Variant(fs) => {
+            if fs.is_empty() || depth == 0 {
+                return None;
+            }
+            let (id, ft) = rng.pick(fs);
+            format!("variant {{ {id} = {} }}", value_text(env, ft, rng, depth - 1)?)
+        }
+        RType::Ref(_) => return None,
+    })
+}
+
+const ILL_VALUES: &[&str] = &["\"text\"", "true", "-1", "300", "1.5", "null", "vec {}", "record {}", "variant { a }", "principal \"aaaaa-aa\"", "opt 1", "(", "", "blob \"ab\""];
+
+const TEXT_KINDS: &[&str] = &["ascii", "emoji", "name", "name.cn", "path", "country", "company", "bs", "klingon"];
+
+fn toml_str_list(xs: &[String]) -> String {
+    let quoted: Vec<String> = xs.iter().map(|x| toml_key(x)).collect();
+    format!("[{}]", quoted.join(", "))
+}
+
+fn gen_seed(rng: &mut Rng) -> (Vec<u8>, &'static str) {
+    match rng.below(10) {
+        0 => (vec![], "empty"),
+        1 => {
+            let n = 1 + rng.usize(8);
+            (rng.bytes(n), "short")
+        }
+        2 => {
+            let n = *rng.pick(&[1usize, 16, 256, 4096]);
+            (vec![0u8; n], "all-zero")
+        }
+        3 => {
+            let n = *rng.pick(&[1usize, 16, 256, 4096]);
+            (vec![0xffu8; n], "all-0xff")
+        }
+        4 | 5 => {
+            let n = 1024 + rng.usize(7 * 1024);
+            (rng.bytes(n), "long")
+        }
+        6 => {
+            // a repeated small pattern
+            let pat = {
+                let n = 1 + rng.usize(4);
+                rng.bytes(n)
+            };
+            let n = 64 + rng.usize(2000);
+            ((0..n).map(|i| pat[i % pat.len()]).collect(), "pattern")
+        }
+        _ => {
+            let n = 16 + rng.usize(240);
+            (rng.bytes(n), "random")
+        }
+    }
+}
+
+fn label_text(id: u32, names: &Names) -> String {
+    match names.get(&id) {
+        Some(n) => n.clone(),
+        None => pp_num(id),
+    }
+}
+
+fn gen_config(rng: &mut Rng, env: &REnv, types: &[RType], names: &Names) -> (String, Option<(String, Option<bool>)>, Option<(i64, i64, i64)>, Option<usize>, String) {
+    let mut top: Vec<String> = Vec::new();
+    let mut tables: Vec<String> = Vec::new();
+    let mut class: Vec<&str> = Vec::new();
+    let mut depth = 10i64;
+    let mut size = 100i64;
+    let mut width = 10i64;
+    let mut budget_known = true;
+    let mut value_for_arg = None;
+    if rng.chance(7, 10) {
+        depth = *rng.pick(&[-1i64, 0, 1, 2, 3, 5, 10, 20, 50]);
+        top.push(format!("depth = {depth}"));
+        class.push("depth");
+    }
+    if rng.chance(6, 10) {
+        size = *rng.pick(&[-1i64, 0, 1, 5, 20, 100, 500]);
+        top.push(format!("size = {size}"));
+        class.push("size");
+    }
+    if rng.chance(5, 10) {
+        width = *rng.pick(&[0i64, 1, 2, 3, 10, 50]);
+        top.push(format!("width = {width}"));
+        class.push("width");
+    }
+    if rng.chance(3, 10) {
+        let (l, r) = match rng.below(8) {
+            0 => (0i64, 0i64),
+            1 => (-10, 10),
+            2 => (i64::MIN, i64::MAX),
+            3 => (250, 260),
+            4 => (-1, 0),
+            5 => (1 << 40, 1 << 41),
+            6 => {
+                class.push("range-inverted");
+                (10, -10)
+            }
+            _ => {
+                let a = rng.next() as i64 >> rng.below(60);
+                let b = rng.next() as i64 >> rng.below(60);
+                (a.min(b), a.max(b))
+            }
+        };
+        top.push(format!("range = [{l}, {r}]"));
+        class.push("range");
+    }
+    if rng.chance(4, 10) {
+        top.push(format!("text = {}", toml_key(*rng.pick(TEXT_KINDS))));
+        class.push("text");
+    }
+    if rng.chance(1, 12) {
+        // a list applied to EVERY type: mostly ill-typed somewhere
+        let vals: Vec<String> = (0..1 + rng.usize(3)).map(|_| rng.pick(ILL_VALUES).to_string()).collect();
+        top.push(format!("value = {}", toml_str_list(&vals)));
+        class.push("value-everywhere");
+    }
+    let prefix = if rng.bool() { "random." } else { "" };
+    // per-type / per-label / per-argument tables
+    if rng.chance(4, 10) {
+        match rng.below(6) {
+            0 => {
+                tables.push(format!("[{prefix}nat]\nrange = [5, 9]"));
+                tables.push(format!("[{prefix}int8]\nrange = [-3, 3]"));
+                class.push("range-by-type");
+            }
+            1 => {
+                tables.push(format!("[{prefix}text]\ntext = {}\nwidth = {}", toml_key(*rng.pick(TEXT_KINDS)), rng.below(20)));
+                class.push("text-by-type");
+            }
+            2 => {
+                tables.push(format!("[{prefix}vec]\nwidth = {}", rng.below(4)));
+                class.push("width-by-type");
+            }
+            3 if !env.0.is_empty() => {
+                let i = rng.usize(env.0.len());
+                tables.push(format!("[{prefix}{}]\ndepth = {}\nsize = {}", var_name(i), rng.below(6), rng.below(30)));
+                budget_known = false;
+                class.push("budget-by-def");
+            }
+            4 if !types.is_empty() => {
+                // values for one argument position
+                let k = rng.usize(types.len());
+                let well = rng.chance(2, 3);
+                let mut vals: Vec<String> = Vec::new();
+                for _ in 0..1 + rng.usize(3) {
+                    let v = if well {
+                        value_text(env, &types[k], rng, 3)
+                    } else {
+                        Some(rng.pick(ILL_VALUES).to_string())
+                    };
+                    if let Some(v) = v {
+                        vals.push(v);
+                    }
+                }
+                if !vals.is_empty() {
+                    tables.push(format!("[{prefix}{}]\nvalue = {}", toml_key(&k.to_string()), toml_str_list(&vals)));
+                    if well {
+                        value_for_arg = Some(k);
+                        class.push("value-well-typed-arg");
+                    } else {
+                        class.push("value-ill-typed-arg");
+                    }
+                }
+            }
+            _ => {
+                // by field label
+                let mut labels: Vec<(u32, RType)> = Vec::new();
+                for t in env.0.iter().chain(types.iter()) {
+                    if let RType::Record(fs) | RType::Variant(fs) = t {
+                        labels.extend(fs.iter().cloned());
+                    }
+                }
+                if !labels.is_empty() {
+                    let (id, ft) = rng.pick(&labels).clone();
+                    let key = toml_key(&label_text(id, names));
+                    if rng.bool() {
+                        if let Some(v) = value_text(env, &ft, rng, 2) {
+                            tables.push(format!("[{prefix}{key}]\nvalue = {}", toml_str_list(&[v])));
+                            class.push("value-by-label");
+                        }
+                    } else {
+                        tables.push(format!("[{prefix}{key}]\nwidth = 1\nrange = [1, 2]"));
+                        class.push("range-by-label");
+                    }
+                }
+            }
+        }
+    }
+    // method / argument scoping
+    let mut scope = None;
+    if rng.chance(3, 10) {
+        let method = rng.pick(&["m", "get", "with space", "query"]).to_string();
+        let pos = match rng.below(3) {
+            0 => Some(true),
+            1 => Some(false),
+            _ => None,
+        };
+        let in_config = rng.chance(3, 4);
+        if in_config {
+            let mkey = toml_key(&format!("func:{method}"));
+            match pos {
+                Some(is_arg) if rng.bool() => {
+                    let akey = toml_key(&format!("{}:{}", if is_arg { "arg" } else { "ret" }, rng.below(3)));
+                    tables.push(format!("[{prefix}{mkey}.{akey}]\nwidth = 2\ntext = \"ascii\""));
+                }
+                _ => tables.push(format!("[{prefix}{mkey}]\nwidth = 3\nrange = [0, 1]")),
+            }
+            tables.push(format!("[{prefix}{mkey}.nat8]\nrange = [1, 1]"));
+        }
+        let given = rng.chance(3, 4);
+        if given {
+            scope = Some((method, pos));
+            class.push("scoped");
+        }
+    }
+    let mut toml = String::new();
+    if !prefix.is_empty() && !top.is_empty() {
+        toml.push_str("[random]\n");
+    }
+    for l in &top {
+        toml.push_str(l);
+        toml.push('\n');
+    }
+    for t in &tables {
+        toml.push_str(t);
+        toml.push('\n');
+    }
+    if class.iter().any(|c| c.contains("value") || *c == "scoped" || *c == "width-by-type" || *c == "text-by-type") {
+        // these can override width; depth/size stay top-level
+    }
+    let budget = if budget_known { Some((depth, size, width)) } else { None };
+    let mut c = class.join("+");
+    if c.is_empty() {
+        c = "default".into();
+    }
+    (toml, scope, budget, value_for_arg, c)
+}
+
+fn special_types(rng: &mut Rng) -> (REnv, Vec<RType>) {
+    let nat = RType::Nat;
+    match rng.below(16) {
+        0 => (REnv::new(), vec![RType::Empty]),
+        1 => (REnv::new(), vec![RType::Variant(vec![])]),
+        2 => (REnv::new(), vec![RType::record(vec![(0, RType::Empty)])]),
+        3 => (REnv::new(), vec![RType::opt(RType::Empty), RType::vec(RType::Empty)]),
+        4 => (REnv::new(), vec![RType::variant(vec![(0, RType::Empty), (1, nat)])]),
+        5 => (REnv::new(), vec![RType::opt(RType::Variant(vec![])), RType::vec(RType::Variant(vec![]))]),
+        // list
+        6 => (
+            REnv(vec![RType::opt(RType::record(vec![(0, nat), (1, RType::Ref(0))]))]),
+            vec![RType::Ref(0)],
+        ),
+        // tree
+        7 => (
+            REnv(vec![RType::variant(vec![
+                (label(b"leaf"), RType::Null),
+                (label(b"node"), RType::record(vec![(0, RType::Ref(0)), (1, RType::Ref(0))])),
+            ])]),
+            vec![RType::Ref(0)],
+        ),
+        // recursion through vec only
+        8 => (REnv(vec![RType::vec(RType::Ref(0))]), vec![RType::Ref(0)]),
+        9 => (
+            REnv(vec![RType::record(vec![(0, RType::Text), (1, RType::vec(RType::Ref(0)))])]),
+            vec![RType::Ref(0)],
+        ),
+        // uninhabited recursion
+        10 => (REnv(vec![RType::record(vec![(0, RType::Ref(0))])]), vec![RType::Ref(0)]),
+        11 => (REnv(vec![RType::variant(vec![(0, RType::Ref(0))])]), vec![RType::opt(RType::Ref(0))]),
+        // a recursive case listed first, the base case is large
+        12 => (
+            REnv(vec![RType::variant(vec![
+                (0, RType::Ref(0)),
+                (1, RType::tuple((0..25).map(|_| RType::Nat8).collect())),
+            ])]),
+            vec![RType::Ref(0)],
+        ),
+        // mutual recursion
+        13 => (
+            REnv(vec![
+                RType::record(vec![(0, RType::opt(RType::Ref(1)))]),
+                RType::variant(vec![(0, RType::Ref(0)), (1, RType::Bool)]),
+            ]),
+            vec![RType::Ref(0), RType::Ref(1)],
+        ),
+        // reference types
+        14 => (
+            REnv(vec![RType::func(vec![RType::Ref(0)], vec![], vec![Mode::Oneway])]),
+            vec![
+                RType::Ref(0),
+                RType::service(vec![("m".into(), RType::Ref(0))]),
+                RType::Principal,
+            ],
+        ),
+        _ => {
+            let d = 5 + rng.usize(60);
+            (REnv::new(), vec![gen_deep(rng, d)])
+        }
+    }
+}
+
+fn label(s: &[u8]) -> u32 {
+    crate::model::misc::label_hash(std::str::from_utf8(s).unwrap())
+}
+
+fn gen_case(rng: &mut Rng, special: bool) -> Case {
+    let (env, types) = if special {
+        special_types(rng)
+    } else {
+        let cfg = TypeCfg {
+            max_defs: 4,
+            max_depth: 1 + rng.usize(4),
+            max_fields: 1 + rng.usize(4),
+            refs: rng.chance(2, 3),
+            empty: rng.chance(1, 3),
+            ref_pct: *rng.pick(&[10, 25, 50]),
+        };
+        let env = gen_env(rng, &cfg);
+        let n = rng.usize(4);
+        let types = gen_types(rng, &cfg, &env, n);
+        (env, types)
+    };
+    // reference types are only legal when their methods are functions
+    let types: Vec<RType> = types.into_iter().filter(|t| crate::model::wire::encodable(&env, t)).collect();
+    let names = if rng.chance(1, 3) { gen_names(rng, &env, &types) } else { Names::new() };
+    let (seed, seed_kind) = gen_seed(rng);
+    let (toml, scope, budget, value_for_arg, config_class) = gen_config(rng, &env, &types, &names);
+    Case {
+        env,
+        types,
+        names,
+        seed,
+        seed_kind,
+        toml,
+        scope,
+        budget,
+        value_for_arg,
+        config_class,
+    }
+}
+
+// ------------------------------------------------------------------------------------------
+// running and judging one call (no access to Ctx: this may run in a forked child)
+
+#[derive(Default)]
+struct Verdict {
+    outcome: String,
+    findings: Vec<(String, String)>,
+    counters: Vec<String>,
+    maxima: Vec<(String, f64)>,
+}
+
+impl Verdict {
+    fn to_json(&self) -> String {
+        json!({"outcome": self.outcome, "findings": self.findings, "counters": self.counters, "maxima": self.maxima}).to_string()
+    }
+    fn from_json(s: &str) -> Option<Verdict> {
+        let v: Value = serde_json::from_str(s).ok()?;
+        Some(Verdict {
+            outcome: v["outcome"].as_str()?.to_string(),
+            findings: v["findings"]
+                .as_array()?
+                .iter()
+                .filter_map(|p| Some((p[0].as_str()?.to_string(), p[1].as_str()?.to_string())))
+                .collect(),
+            counters: v["counters"].as_array()?.iter().filter_map(|c| c.as_str().map(|s| s.to_string())).collect(),
+            maxima: v["maxima"]
+                .as_array()?
+                .iter()
+                .filter_map(|p| Some((p[0].as_str()?.to_string(), p[1].as_f64()?)))
+                .collect(),
+        })
+    }
+}
+
+/// equality of abstract values at a type; positions of type `reserved` hold no information
+fn same_at(env: &REnv, t: &RType, a: &RValue, b: &RValue) -> bool {
+    let Some(t) = env.unfold(t) else { return false };
+    match (t, a, b) {
+        (RType::Reserved, _, _) => true,
+        (RType::Opt(x), RValue::Opt(p), RValue::Opt(q)) => same_at(env, x, p, q),
+        (RType::Vec(x), RValue::Vec(p), RValue::Vec(q)) => p.len() == q.len() && p.iter().zip(q.iter()).all(|(u, v)| same_at(env, x, u, v)),
+        (RType::Record(fs), RValue::Record(p), RValue::Record(q)) => {
+            p.len() == q.len()
+                && p.len() == fs.len()
+                && fs
+                    .iter()
+                    .zip(p.iter().zip(q.iter()))
+                    .all(|((i, ft), ((j, u), (k, v)))| i == j && j == k && same_at(env, ft, u, v))
+        }
+        (RType::Variant(fs), RValue::Variant(i, u), RValue::Variant(j, v)) => {
+            i == j
+                && match fs.iter().find(|f| f.0 == *i) {
+                    Some((_, ft)) => same_at(env, ft, u, v),
+                    None => false,
+                }
+        }
+        (_, x, y) => x == y,
+    }
+}
+
+fn stable_loc(loc: &str) -> String {
+    if loc.contains("/out/grammar.rs") {
+        return "candid_parser/grammar.rs(generated)".into();
+    }
+    match loc.find("/rust/") {
+        Some(i) => loc[i + 6..].to_string(),
+        None => match loc.find("/registry/src/") {
+            Some(i) => loc[i + 14..].splitn(2, '/').nth(1).unwrap_or(loc).to_string(),
+            None => loc.to_string(),
+        },
+    }
+}
+
+fn judge(c: &Case) -> Verdict {
+    let mut v = Verdict::default();
+    let f = facts(&c.env, &c.types);
+    let tclass = type_class(&f);
+    let (cenv, cts) = candid_side(&c.env, &c.types, Some(&c.names));
+    let configs: Configs = match c.toml.parse::<Configs>() {
+        Ok(x) => x,
+        Err(_) => {
+            v.outcome = "bad-toml".into();
+            v.counters.push("excluded:toml-rejected".into());
+            return v;
+        }
+    };
+    let scope = c.scope.as_ref().map(|(m, pos)| Scope {
+        method: m.as_str(),
+        position: pos.map(|is_arg| if is_arg { ScopePos::Arg } else { ScopePos::Ret }),
+    });
+    let res = catch(|| candid_parser::random::any(&c.seed, configs, &cenv, &cts, &scope));
+    let args = match res {
+        Err(p) => {
+            v.outcome = "panic".into();
+            let loc = stable_loc(&p.location);
+            let cause = if p.message.contains("Recursion limit exceeded") {
+                // the recursion only stopped at candid's stack guard: name the recursion, not other features
+                format!(
+                    "type-class={}",
+                    if f.uninhabited && f.recursive {
+                        "uninhabited-recursive"
+                    } else if f.vec_recursion {
+                        "vec-recursion"
+                    } else if f.recursive {
+                        "recursive"
+                    } else {
+                        tclass
+                    }
+                )
+            } else if p.message.contains("not implemented") {
+                "type-class=empty".to_string()
+            } else if p.message.contains("int_in_range` requires a non-empty range") {
+                if c.config_class.contains("range-inverted") {
+                    "config=range-inverted".to_string()
+                } else {
+                    format!("config={}", c.config_class)
+                }
+            } else if loc.contains("random.rs") && (p.message.contains("subtract with overflow") || p.message.contains("index out of bounds")) {
+                if f.has_empty_variant {
+                    "type-class=variant-empty".to_string()
+                } else if f.has_empty {
+                    "type-class=variant-all-weights-zero(empty-case)".to_string()
+                } else {
+                    format!("type-class={tclass}")
+                }
+            } else {
+                format!("type-class={tclass}")
+            };
+            v.findings.push((
+                format!("panic|{loc}|{cause}"),
+                format!("random::any panicked at {}: {}", p.location, p.message.lines().next().unwrap_or("")),
+            ));
+            return v;
+        }
+        Ok(Err(e)) => {
+            v.outcome = "err".into();
+            v.counters.push(format!("err:{}", err_class(&e).chars().take(40).collect::<String>()));
+            if !f.uninhabited && c.config_class == "default" {
+                v.counters.push("anomaly:err-on-inhabited-types-with-default-config".into());
+            }
+            return v;
+        }
+        Ok(Ok(a)) => a,
+    };
+    v.outcome = "ok".into();
+    if args.args.len() != c.types.len() {
+        v.findings.push((
+            "arity".into(),
+            format!("{} values for {} types", args.args.len(), c.types.len()),
+        ));
+        return v;
+    }
+    let vals: Vec<RValue> = args.args.iter().map(model_value).collect();
+    // (2) typing
+    for (k, (val, t)) in vals.iter().zip(c.types.iter()).enumerate() {
+        if !has_type(&c.env, val, t) {
+            v.findings.push((
+                format!("ill-typed|{}|config={}", shape(&c.env, t, 2), if c.config_class.contains("value") { "value-list" } else { "no-value-list" }),
+                format!("argument {k}: {} does not have type {} (env: {})", clipv(val), t, c.env),
+            ));
+            return v;
+        }
+    }
+    // (3) annotate_types(false) returns the same abstract values
+    match catch(|| args.clone().annotate_types(false, &cenv, &cts)) {
+        Err(p) => {
+            v.findings.push((format!("annotate|panic|{}", stable_loc(&p.location)), p.message.clone()));
+            return v;
+        }
+        Ok(Err(e)) => {
+            v.findings.push((
+                format!("annotate|rejected|{}", err_class(&e)),
+                format!("annotate_types(false) rejects the generated values: {e}"),
+            ));
+            return v;
+        }
+        Ok(Ok(a2)) => {
+            let vals2: Vec<RValue> = a2.args.iter().map(model_value).collect();
+            let same = vals2.len() == vals.len() && c.types.iter().zip(vals.iter().zip(vals2.iter())).all(|(t, (x, y))| same_at(&c.env, t, x, y));
+            if !same {
+                v.findings.push((
+                    "annotate|changes-value".into(),
+                    format!("annotate_types(false) changed the values: {:?}", diff_all(&vals, &vals2)),
+                ));
+                return v;
+            }
+            if a2 != args && !vals.iter().any(has_nan) {
+                v.counters.push("note:annotate-changes-representation".into());
+            }
+        }
+    }
+    // (4) encodes, and the reference decoder reads the same values
+    match catch(|| args.to_bytes_with_types(&cenv, &cts)) {
+        Err(p) => {
+            v.findings.push((format!("encode|panic|{}", stable_loc(&p.location)), p.message.clone()));
+            return v;
+        }
+        Ok(Err(e)) => {
+            v.findings.push((
+                format!("encode|rejected|{}", err_class(&e)),
+                format!("to_bytes_with_types rejects the generated values: {e}"),
+            ));
+            return v;
+        }
+        Ok(Ok(bytes)) => match decode(&bytes) {
+            Err(DecErr::OverLimit(_)) => v.counters.push("excluded:decode-over-limit".into()),
+            Err(DecErr::Malformed(m)) => {
+                v.findings.push((
+                    "encode|malformed".into(),
+                    format!("reference decoder: {m}; bytes {}", hex(&bytes)),
+                ));
+                return v;
+            }
+            Ok(d) => {
+                let same = d.values.len() == vals.len()
+                    && c.types.iter().zip(vals.iter().zip(d.values.iter())).all(|(t, (x, y))| same_at(&c.env, t, x, y));
+                if !same {
+                    v.findings.push((
+                        "encode|different-values".into(),
+                        format!("decoded values differ from the generated ones: {:?}", diff_all(&vals, &d.values)),
+                    ));
+                    return v;
+                }
+                v.counters.push("agree:typed+annotated+encoded".into());
+            }
+        },
+    }
+    if let Some(k) = c.value_for_arg {
+        let _ = k;
+        v.counters.push("cover:ok-with-well-typed-value-list".into());
+    }
+    // budget
+    let vdepth = vals.iter().map(|x| x.depth()).max().unwrap_or(0) as f64;
+    let vnodes = vals.iter().map(|x| x.node_count()).sum::<usize>() as f64;
+    if let Some((d, s, w)) = c.budget {
+        let allowed_depth = (d.max(0) as f64) + f.static_depth as f64 + 2.0;
+        let ratio = vdepth / allowed_depth;
+        let key = if f.vec_recursion { "depth-ratio:vec-recursion" } else { "depth-ratio" };
+        v.maxima.push((key.into(), ratio));
+        if ratio > 20.0 {
+            v.findings.push((
+                format!("budget|depth|type-class={tclass}"),
+                format!(
+                    "value depth {vdepth} with configured depth {d} and static type depth {} (ratio {ratio:.1})",
+                    f.static_depth
+                ),
+            ));
+        }
+        // nodes: vectors and text are bounded by width, not by size; allow width^static_depth
+        let per_vec = (w.max(1) as f64 + 1.0).powi(f.static_depth.min(6) as i32);
+        let allowed_nodes = (s.max(0) as f64 + 10.0) * per_vec * c.types.len().max(1) as f64;
+        let nratio = vnodes / allowed_nodes;
+        let key = if f.vec_recursion { "size-ratio:vec-recursion" } else { "size-ratio" };
+        v.maxima.push((key.into(), nratio));
+        if nratio > 100.0 && !f.vec_recursion {
+            v.findings.push((
+                format!("budget|size|type-class={tclass}"),
+                format!("{vnodes} value nodes with configured size {s}, width {w} (ratio {nratio:.1})"),
+            ));
+        }
+    }
+    v.maxima.push(("value-depth".into(), vdepth));
+    v.maxima.push(("value-nodes".into(), vnodes));
+    v
+}
+
+fn has_nan(v: &RValue) -> bool {
+    match v {
+        RValue::Float32(b) => f32::from_bits(*b).is_nan(),
+        RValue::Float64(b) => f64::from_bits(*b).is_nan(),
+        RValue::Opt(x) | RValue::Variant(_, x) => has_nan(x),
+        RValue::Vec(xs) => xs.iter().any(has_nan),
+        RValue::Record(fs) => fs.iter().any(|f| has_nan(&f.1)),
+        _ => false,
+    }
+}
+
+fn clipv(v: &RValue) -> String {
+    v.to_string().chars().take(300).collect()
+}
+
+const CALL_STACK: usize = 2 << 20;
+
+fn judge_on_small_stack(c: Case) -> Verdict {
+    match on_thread(CALL_STACK, move || judge(&c).to_json()) {
+        Ok(s) => Verdict::from_json(&s).unwrap_or_default(),
+        Err(p) => Verdict {
+            outcome: "harness".into(),
+            findings: vec![(format!("harness-thread|{}", p.location), p.message)],
+            ..Verdict::default()
+        },
+    }
+}
+
+/// A forked copy of this worker that runs the calls: it regenerates each case from the generator
+/// state it is sent (9 bytes), runs it on a 2 MiB thread and sends the verdict back. When a call
+/// kills it (stack overflow, abort), the parent sees the death, reports it with the witness, and
+/// forks a new helper — the worker and its evidence survive. (A fork per case costs ~12 ms here.)
+struct Helper {
+    pid: i32,
+    to_child: i32,
+    from_child: i32,
+}
+
+unsafe fn read_exact(fd: i32, buf: &mut [u8]) -> bool {
+    let mut off = 0usize;
+    while off < buf.len() {
+        let n = libc::read(fd, buf[off..].as_mut_ptr() as *mut libc::c_void, buf.len() - off);
+        if n <= 0 {
+            return false;
+        }
+        off += n as usize;
+    }
+    true
+}
+unsafe fn write_all(fd: i32, buf: &[u8]) -> bool {
+    let mut off = 0usize;
+    while off < buf.len() {
+        let n = libc::write(fd, buf[off..].as_ptr() as *const libc::c_void, buf.len() - off);
+        if n <= 0 {
+            return false;
+        }
+        off += n as usize;
+    }
+    true
+}
+
+impl Helper {
+    fn spawn() -> Option<Helper> {
+        unsafe {
+            let mut down = [0i32; 2];
+            let mut up = [0i32; 2];
+            if libc::pipe(down.as_mut_ptr()) != 0 || libc::pipe(up.as_mut_ptr()) != 0 {
+                return None;
+            }
+            let pid = libc::fork();
+            if pid < 0 {
+                return None;
+            }
+            if pid == 0 {
+                libc::close(down[1]);
+                libc::close(up[0]);
+                let devnull = libc::open(b"/dev/null\0".as_ptr() as *const libc::c_char, libc::O_WRONLY);
+                if devnull >= 0 {
+                    libc::dup2(devnull, 2);
+                }
+                loop {
+                    let mut req = [0u8; 9];
+                    if !read_exact(down[0], &mut req) {
+                        libc::_exit(0);
+                    }
+                    let state = u64::from_le_bytes(req[..8].try_into().unwrap());
+                    let mut rng = Rng(state);
+                    let c = gen_case(&mut rng, req[8] != 0);
+                    let out = judge_on_small_stack(c).to_json();
+                    let len = (out.len() as u32).to_le_bytes();
+                    if !write_all(up[1], &len) || !write_all(up[1], out.as_bytes()) {
+                        libc::_exit(1);
+                    }
+                }
+            }
+            libc::close(down[0]);
+            libc::close(up[1]);
+            Some(Helper {
+                pid,
+                to_child: down[1],
+                from_child: up[0],
+            })
+        }
+    }
+    /// `Err(how it died)`; the helper is gone afterwards.
+    fn call(&mut self, state: u64, special: bool) -> Result<String, String> {
+        unsafe {
+            let mut req = [0u8; 9];
+            req[..8].copy_from_slice(&state.to_le_bytes());
+            req[8] = special as u8;
+            if !write_all(self.to_child, &req) {
+                return Err(self.reap());
+            }
+            // a generous hang detector (never a verdict)
+            let mut pfd = libc::pollfd {
+                fd: self.from_child,
+                events: libc::POLLIN,
+                revents: 0,
+            };
+            let ready = libc::poll(&mut pfd, 1, 120_000);
+            if ready == 0 {
+                libc::kill(self.pid, libc::SIGKILL);
+                self.reap();
+                return Err("hang".into());
+            }
+            let mut len = [0u8; 4];
+            if !read_exact(self.from_child, &mut len) {
+                return Err(self.reap());
+            }
+            let mut buf = vec![0u8; u32::from_le_bytes(len) as usize];
+            if !read_exact(self.from_child, &mut buf) {
+                return Err(self.reap());
+            }
+            Ok(String::from_utf8_lossy(&buf).to_string())
+        }
+    }
+    fn reap(&mut self) -> String {
+        unsafe {
+            libc::close(self.to_child);
+            libc::close(self.from_child);
+            let mut status = 0i32;
+            libc::waitpid(self.pid, &mut status, 0);
+            self.pid = -1;
+            if libc::WIFSIGNALED(status) {
+                format!("signal={}", libc::WTERMSIG(status))
+            } else {
+                format!("exit={}", libc::WEXITSTATUS(status))
+            }
+        }
+    }
+}
+
+impl Drop for Helper {
+    fn drop(&mut self) {
+        if self.pid > 0 {
+            unsafe {
+                libc::close(self.to_child);
+                libc::close(self.from_child);
+                let mut status = 0i32;
+                libc::waitpid(self.pid, &mut status, 0);
+            }
+        }
+    }
+}
+
+fn one_case(ctx: &mut Ctx, rng: &mut Rng, special: bool, helper: &mut Option<Helper>, runaways: &mut std::collections::HashMap<String, u32>) {
+    let state = rng.0;
+    let c = gen_case(rng, special);
+    let f = facts(&c.env, &c.types);
+    let tclass = type_class(&f);
+    ctx.count(&format!("cover:type-class:{tclass}"));
+    ctx.count(&format!("cover:seed:{}", c.seed_kind));
+    for part in c.config_class.split('+') {
+        ctx.count(&format!("cover:config:{part}"));
+    }
+    if c.scope.is_some() {
+        ctx.count("cover:scope-given");
+    }
+    let input = json!({
+        "env": c.env.to_string(),
+        "types": c.types.iter().map(|t| t.to_string()).collect::<Vec<_>>(),
+        "names": c.names.iter().map(|(k, v)| format!("{k}={v:?}")).collect::<Vec<_>>(),
+        "seed": hex(&c.seed),
+        "seed_kind": c.seed_kind,
+        "config_toml": c.toml,
+        "scope": c.scope.as_ref().map(|(m, p)| format!("{m}/{p:?}")),
+    });
+    // Shapes on which the generator is known to recurse until the stack guard stops it (each such call
+    // burns the whole 2 MiB stack with quadratic work: 0.1 s in debug, seconds in release builds). Once a
+    // shape class has two witnesses only every sixteenth case of that class is still run.
+    let risk: Option<String> = if f.recursive && f.uninhabited {
+        Some("uninhabited-recursive".into())
+    } else if f.vec_recursion && c.seed.len() >= 1024 {
+        Some("vec-recursion+long-seed".into())
+    } else if f.recursive && special {
+        Some(format!("special:{}", shape(&c.env, &c.types[0], 3)))
+    } else {
+        None
+    };
+    if let Some(k) = &risk {
+        if runaways.get(k).copied().unwrap_or(0) >= 2 && !rng.chance(1, 16) {
+            ctx.count("skipped:known-runaway-shape");
+            return;
+        }
+    }
+    if helper.is_none() {
+        *helper = Helper::spawn();
+        ctx.count("helper:spawned");
+    }
+    let v = match helper.as_mut() {
+        None => {
+            // no helper process available: run in the worker itself (a stack overflow then ends the worker)
+            ctx.count("ran:in-process");
+            judge_on_small_stack(c.clone())
+        }
+        Some(h) => match h.call(state, special) {
+            Ok(s) => Verdict::from_json(&s).unwrap_or_else(|| Verdict {
+                outcome: "harness".into(),
+                counters: vec!["anomaly:helper-output-unreadable".into()],
+                ..Verdict::default()
+            }),
+            Err(death) => {
+                *helper = None;
+                if death == "hang" {
+                    Verdict {
+                        outcome: "hang".into(),
+                        counters: vec!["anomaly:helper-silent-for-120s".into()],
+                        ..Verdict::default()
+                    }
+                } else {
+                    Verdict {
+                        outcome: "died".into(),
+                        findings: vec![(
+                            format!("process-death|{death}|type-class={tclass}"),
+                            format!(
+                                "random::any on a {CALL_STACK}-byte stack killed the process ({death}: 6 = abort after Rust's stack-overflow report, 11 = SIGSEGV) instead of returning Err"
+                            ),
+                        )],
+                        ..Verdict::default()
+                    }
+                }
+            }
+        },
+    };
+    if let Some(k) = risk {
+        let runaway = v.outcome == "died" || v.findings.iter().any(|(_, w)| w.contains("Recursion limit exceeded"));
+        if runaway {
+            *runaways.entry(k).or_insert(0) += 1;
+        }
+    }
+    ctx.count(&format!("outcome:{}", v.outcome));
+    for k in &v.counters {
+        ctx.count(k);
+    }
+    for (k, x) in &v.maxima {
+        ctx.max(k, *x);
+    }
+    for (sig, what) in &v.findings {
+        ctx.violation(sig, what, input.clone());
+    }
+    let shapes: Vec<String> = c.types.iter().map(|t| shape(&c.env, t, 3)).collect();
+    ctx.nontrivial(hash_str(&format!("{shapes:?}|{}|{}|{}", c.seed_kind, c.config_class, v.outcome)));
+    ctx.sample(|| input.clone());
+}
+
+pub fn run(ctx: &mut Ctx) {
+    let mut helper: Option<Helper> = None;
+    let mut runaways = std::collections::HashMap::new();
+    ctx.cases("generated-types", 0.75, |ctx, rng| one_case(ctx, rng, false, &mut helper, &mut runaways));
+    ctx.cases("special-types", 0.25, |ctx, rng| one_case(ctx, rng, true, &mut helper, &mut runaways));
+}
